@@ -44,7 +44,7 @@ def plan(tier, seed):
 
 def required(tier):
     from vlib.gridwork import KINDS
-    cl = [f'geom:{k}' for k in KINDS] + ['gridder:object-switched-to-another-grid', 'state-values:float-with-nan', 'state-values:int64-beyond-2**53', 'trajectory:more-than-65536-points', 'axes:alt+time', 'axes:', 'segment:antimeridian',
+    cl = [f'geom:{k}' for k in KINDS] + ['gridder:object-switched-to-another-grid', 'state-values:float-with-nan', 'state-values:int64-beyond-2**53', 'trajectory:more-than-65536-points', 'entry-point:older', 'entry-point:older:antimeridian', 'entry-point:older:antimeridian:time-without-altitude', 'axes:alt+time', 'axes:', 'segment:antimeridian',
                                          'segment:multi-cell', 'alt-cell', 'time-cell',
                                          'state-values']
     return {'classes': cl, 'counters': {'cell_share_comparisons': 2000}, 'evaluations': 800}
@@ -185,6 +185,9 @@ def judge(c, rec, Mismatch, case):
             rec.cls('segment:antimeridian')
     if getattr(c, 'reused_gridder', False):
         rec.cls('gridder:object-switched-to-another-grid')
+    rec.cls('entry-point:' + ('older' if c.route != 'grid_trajectory' else 'grid_trajectory')
+            + (':antimeridian' if c.cross_seg is not None else '')
+            + (':time-without-altitude' if c.tim_g is not None and c.alt_g is None else ''))
     rec.cls(f'geom:{c.kind}', f'res:{c.grid["bucket"]}', f'axes:{c.desc["axes"]}',
             f'combo:{c.kind}:{c.grid["bucket"]}:{c.desc["axes"]}')
 
